@@ -7,6 +7,30 @@ CLAIMED = {
    text="Deductive: lock-balance ghost state (drive held / per-mutex held) is proved free on every return path of the functions under contract, for every outcome of every callee (each error return of a callee is a CFG path), plus explicit-panic/type-assertion safety. Unbounded in inputs and fault points; no scheduling.",
    note="Assumed: sync.Mutex semantics, the abstract spec of the four BackendConfig drive funcs, callbacks do not touch locks; go/ssa as semantics; SMT solvers. Liveness of io.Pipe hand-off is not decided.",
    design="4.10"),
+ "C01": dict(
+   text="Deductive, partial: (a) the four header converters copy every column to the like-named field (a swapped or dropped field fails); (b) in Archive/Update the in-memory header that the incremental re-index substitutes for what it reads back equals, field by field, the header that is sealed and written (no store between the copy and SignHeader) -- the mechanism that keeps the live index equal to a rebuild; (c) the rebuild in fs.Initialize starts at position 0 into a purged index with the non-initializing name handling. The representation invariant 'index = replay(tape)' over all histories is NOT mechanised (index-view contracts of DESIGN 4.1 not built).",
+   note="Assumed: json/tar header round-trip, SQL specs. Undecided: Rep/LastIdx/RootCache invariants, Delete/Move in-memory copies (slice elements), symlink rows, root spelling sigma.",
+   design="4.1"),
+ "C03": dict(
+   text="Deductive, partial: RemoveSuffix(AddSuffix(n)) = n for every name and every known format pair (string lemma over the two function contracts, each proved against its body); the indexer strips the suffix exactly from content-carrying records and the writers add it only together with the size record; the stored size is the recorded content length whenever the record is present; a member whose size was computed from content has that content written (shared with C05).",
+   note="Assumed: codec/cipher inverses and determinism of encoded length (library behaviour, DESIGN 3.5), strconv.Atoi/Itoa as inverse functions. Undecided: two-pass parameter equality, close order, Fetch's inverse reader stack, Compress level table.",
+   design="4.3"),
+ "C06": dict(
+   text="Deductive, partial: every re-synchronisation seek of Index and Query after a parse error goes forward to the next 512 boundary (target >= current offset, < current+512, aligned) for every offset and record size -- the progress step that makes a torn, unaligned tail terminate; header positions stay exact across resynchronisation (C04 invariant); no explicit panic is reachable in Index/indexHeader (C10 sweep).",
+   note="Assumed: tar reader ghost spec on truncated input. Undecided: full termination measure, 'state after the last complete record' (needs C01's fold invariant), Fetch's error on a torn member, tape-drive branch.",
+   design="4.6"),
+ "C07": dict(
+   text="Deductive, partial: UpsertHeader is state-oblivious -- on success it always writes the incoming row (all non-key columns equal the incoming header, including deleted), whatever the index already holds; DeleteHeader keeps the row as a tombstone with the new last-known position; Index purges only under an explicit overwrite request. Convergence of a non-wiping replay additionally needs totality of MoveHeader on existing keys, which is SQL behaviour (not decided here) and the induction of DESIGN 4.7 (stated, not mechanised).",
+   note="Assumed: sqlboiler Insert/Update semantics as in specs/90_sql.spec. Known gap on the pinned tree: MoveHeader violates the primary key when the new name already has a row (rename onto a previously used name; replay of moves) -- not decided by any obligation yet.",
+   design="4.7"),
+ "C13": dict(
+   text="Deductive, partial: a count-limited directory listing returns at most n entries for every n > 0 and every result size of the underlying queries (limit arithmetic of GetHeaderDirectChildren, including the slice bound).",
+   note="Undecided: tree well-formedness invariant, exactness of listings (SQL depth expression), parent-must-be-directory (known defect on the pinned tree: Mkdir/Create under a regular file succeeds; MkdirAll creates only the leaf).",
+   design="4.13"),
+ "C16": dict(
+   text="Deductive, partial: when Initialize rebuilds a missing index it indexes from position 0 with purge and with non-initializing name sanitising, from the configured read backend (a flipped flag fails); truncation can only come from the manager's overwrite flag (C05); a read-only instance never appends (C15).",
+   note="Undecided / known gaps on the pinned tree: a rebuild error (torn tail) falls through to creating a second root; a stale index is accepted as is; appending after an unaligned cut.",
+   design="4.16"),
  "C04": dict(
    text="Deductive: the position arithmetic of the regular-drive branches of recovery.Index and recovery.Query is proved for every record size >= 1 and every byte offset by a loop invariant over a ghost model of the drive offset and of archive/tar's reader (next header = drive offset + unread payload + padding): the (record, block) handed to the indexer/callback with each header is that header's start, 0 <= block < record size; Fetch seeks to exactly 512*(recordSize*record+block); Restore passes the row's own position. Non-linear integer arithmetic with a real-valued ceiling, unbounded.",
    note="Assumed: tar reader/Seek/io.Copy ghost specs written from reading archive/tar (specs/30_tar_positions.spec); float64 ceiling exact below 2^53; machine integers mathematical. Not decided here: tape-drive (mt ioctl) branches; the row-position rules of indexHeader and the last-indexed invariant (index-view obligations, not built yet); 'fetching returns current content' rests on C03/C05.",
@@ -34,14 +58,14 @@ CLAIMED = {
 }
 
 NOT_YET = {
- "C01": "not yet built (planned, DESIGN 4.1)", "C02": "not yet built (planned, DESIGN 4.2)",
- "C03": "not yet built (planned, DESIGN 4.3)",
- "C06": "not yet built (planned, DESIGN 4.6)",
- "C07": "not yet built (planned, DESIGN 4.7)", 
- "C11": "not yet built (planned, DESIGN 4.11)",
- "C12": "not yet built (planned, DESIGN 4.12)", "C13": "not yet built (planned, DESIGN 4.13)",
+ "C02": "not yet built (planned, DESIGN 4.2)",
 
- "C16": "not yet built (planned, DESIGN 4.16)", "C17": "not yet built (planned, DESIGN 4.17)",
+
+ 
+ "C11": "not yet built (planned, DESIGN 4.11)",
+ "C12": "not yet built (planned, DESIGN 4.12)",
+
+ "C17": "not yet built (planned, DESIGN 4.17)",
  "C18": "No contract within reach can express or decide it: every clause quantifies over third-party cryptography (age scrypt, go-crypto S2K, minisign KDF) for all passwords; the stfs code involved is format dispatch only (DESIGN section 5).",
 }
 
